@@ -14,6 +14,7 @@
 -/
 import PurlModel.Lemmas.QualsStep
 import PurlModel.Lemmas.QualsSpec
+import PurlModel.Lemmas.BinSearch
 import PurlModel.Lemmas.RustUnicode
 namespace Purl.C11
 open Purl Purl.Generated
@@ -287,6 +288,26 @@ theorem insert_commutes (q : Quals) (hq : QInv q) (k₁ v₁ k₂ v₂ : Str) (h
   · intro e; exact absurd e hne
   · intro e; exact absurd e.symm hne
 
+/-- `Qualifiers::search` is `binary_search_by` of the standard library.  The model's `search` is the
+CONTRACT of that function (a lower-bound scan); `searchBin` is its ALGORITHM as the linked std implements
+it (PurlModel/BinSearch.lean: the branch-free halving loop, no early exit, one last comparison).  On every
+collection satisfying the invariant the algorithm returns exactly what the contract says — so every theorem
+of this file is also a theorem about the collection searched the way the compiled code searches it. -/
+theorem search_is_std_binary_search (q : Quals) (hq : QInv q) (mk : MixedKey) :
+    q.searchBin U mk = q.search U mk :=
+  searchBin_eq_search U hq.1 mk
+
+/-- … in particular on every state reachable through the public API -/
+theorem reachable_search_is_std_binary_search (ops : List QOp) (os : List QOut) (q : Quals)
+    (h : Quals.run U [] ops = .ok (os, q)) (mk : MixedKey) : q.searchBin U mk = q.search U mk :=
+  search_is_std_binary_search U q (reachable_inv U ops os q h) mk
+
+/-- the generic statement: on any slice along which the comparison is monotone, std's algorithm returns
+the lower-bound scan (no out-of-range read, no failure) -/
+theorem std_binary_search_meets_contract {α : Type} (c : α → Ordering) (l : List α) (hm : Mono c l) :
+    binarySearchBy (fun a => some (c a)) l = .ok (foundG c l, lbG c l) :=
+  binarySearchBy_eq_scan c l hm
+
 /-- No operation panics, except the two documented cases (which do). -/
 theorem no_panic (q : Quals) (op : QOp) (h : docPanic q op = false) : ∃ r, q.step U op = .ok r :=
   step_ok U q op h
@@ -313,6 +334,16 @@ end Purl.C11
 /-! ### instantiation at the case tables of the linked Rust `std` -/
 namespace Purl.C11
 open Purl Purl.Generated
+
+/-- the invariant is what makes the contract hold: on the unsorted slice `[b, a, c]` std's algorithm finds
+`a` at index 1 while the lower-bound scan stops at index 0 (both are what the real `binary_search_by` and a
+linear scan do — the `bsearch` request of the correspondence check runs unsorted slices too) -/
+example : bsearchStrs "a".toList ["b".toList, "a".toList, "c".toList] = .ok (true, 1) ∧
+    (foundAt "a".toList [("b".toList, []), ("a".toList, []), ("c".toList, [])],
+      lb "a".toList [("b".toList, []), ("a".toList, []), ("c".toList, [])]) = (false, 0) := by
+  constructor
+  · simp [bsearchStrs, binarySearchBy, bsLoop, cmpStr]
+  · simp [foundAt, lb, cmpStr]
 
 theorem reachable_inv_rust (ops : List QOp) (os : List QOut) (q : Quals)
     (h : Quals.run rustUnicode [] ops = .ok (os, q)) : QInv q :=
